@@ -84,10 +84,10 @@ def _innermost(frames):
     return _short(lib[0]) if lib else (frames[0] if frames else "?")
 
 
-def _attribution():
+def _attribution(rundir=None):
     """(pid, ordinal) -> case id, from the race shards' data events; and block text -> (pid, ordinal)."""
     here = os.path.dirname(os.path.dirname(os.path.dirname(os.path.abspath(__file__))))
-    rundir = os.path.join(here, ".build", "run", "C17")
+    rundir = rundir or os.path.join(here, ".build", "run", "C17")
     by_pid = {}
     for f in glob.glob(os.path.join(rundir, "shardrace_*.jsonl")) + glob.glob(os.path.join(rundir, "replay.jsonl")):
         try:
@@ -112,8 +112,8 @@ def _attribution():
     return by_pid, where
 
 
-def classify(race_reports, cov):
-    by_pid, where = _attribution()
+def classify(race_reports, cov, rundir=None):
+    by_pid, where = _attribution(rundir)
     groups = {}
     dep = 0
     harness_only = 0
